@@ -126,7 +126,8 @@ def r10_3(rep):
             src = lsrc
         rep.check(own, "blob-own-layout", "the blob is built from the layout of the item itself (%s)" % src[:140], q.loc())
     # explicit alignment of the opaque struct is the layout's alignment
-    al = [n for n in b.walk() if n["k"] == "Assign" and strip(n["l"]).get("name") == "explicit_align" and opaque(n)]
+    al = [n for n in b.walk() if n["k"] == "Assign" and strip(n["l"]).get("k") == "Local" and
+          (b.ty(n["l"]) or "").replace("&", "") == "std::option::Option<usize>" and opaque(n)]
     rep.check(any("Layout::align" in b.canon(n["r"], 6) for n in al), "blob-align", "an opaque item is aligned to its own layout.align", b.loc(b.root))
 
 
@@ -201,7 +202,7 @@ def r10_5(rep):
         src = " ".join(b.canon(v, 6) for v in b.walk(q.root) if v["k"] == "Local" and b.local_def.get(v["id"], [("",)])[0][0] == "let")
         rep.check("Layout::align" in src, "wrapper-named-by-align", "__BindgenOpaqueArray<N> is named after the alignment (%s)" % src[:80], q.loc())
     al = b.local_def
-    aligns = [n for n in b.walk() if n["k"] == "Let" and n["pat"].get("name") == "align"]
+    aligns = [n for n in b.walk() if n["k"] == "Let" and n.get("init") is not None and b.canon(n["init"], 6).startswith("std::cmp::Ord::max(")]
     rep.check(bool(aligns) and b.canon(aligns[0]["init"], 6).startswith("std::cmp::Ord::max(" + lay + "align"), "align-source",
               "align is layout.align.max(1) (%s)" % (b.canon(aligns[0]["init"], 6) if aligns else "?"), b.loc(b.root))
 
